@@ -65,7 +65,7 @@ theorem tree_total {U : Unicode} {T : Table} (hT : T.WF) (c : Str) :
       split
       · exact Or.inr ⟨_, rfl⟩
       · have hW := hT e (Table.lookup_mem hl).1
-        obtain ⟨l, _, hpat, _⟩ := hW.spec
+        obtain ⟨l, _, _, hpat, _, _⟩ := hW.spec
         rw [hpat]
         simp only
         split
